@@ -11,7 +11,8 @@ from common import Ctx, InfraError
 
 MODULES = {f"C{i:02d}": [f"TjdProps.C{i:02d}"] for i in range(1, 21)}
 MODULES["C01"].append("TjdProps.C01Example")
-MODULES["C03"].append("TjdProps.C03Example")
+MODULES["C03"] += ["TjdProps.C03Example", "TjdProps.C03b"]
+MODULES["C04"].append("TjdProps.C03b")
 MODULES["C15"].append("TjdProps.C15b")
 MODULES["C10"].append("TjdProps.C10b")
 
